@@ -30,6 +30,7 @@ type c03Op struct {
 	Via    string  `json:"via,omitempty"`
 	Use    *c03Use `json:"use,omitempty"`
 	Fault  bool    `json:"loader_fault,omitempty"`
+	Conc   int     `json:"concurrent_group,omitempty"` // > 0: issued concurrently with the other ops of this group
 	ExecOf int     `json:"exec_of,omitempty"`
 	// derived
 	Dir       string   `json:"dir,omitempty"`
@@ -63,7 +64,7 @@ func (c03Checker) ID() string { return "C03" }
 func (c03Checker) ProbeNames() []string {
 	return []string{"ban_accepted", "ban_refused_frozen", "ban_after_failed_creation", "ban_unknown", "ban_duplicate",
 		"banned_use_rejected", "banned_lazy_rejected_at_exec", "control_route_ok", "unbanned_use_ok", "route_filter_tag_chain",
-		"route_macro_default", "route_file_composition", "route_tag_argument", "creation_failed_by_loader_fault", "two_sets", "exec_of_earlier"}
+		"route_macro_default", "route_file_composition", "route_tag_argument", "creation_failed_by_loader_fault", "two_sets", "exec_of_earlier", "concurrent_first_creations"}
 }
 func (c03Checker) Meta() CheckerMeta {
 	return CheckerMeta{
@@ -592,6 +593,44 @@ func c03Gen(tp *Tapes) *c03Spec {
 		}
 		sp.Ops = append(sp.Ops, op)
 	}
+	// the first creations of a set may be issued by several goroutines at once (the bans
+	// were set up before): mark the leading run of fault-free creations on one set
+	if g.Draw(2) == 0 {
+		first := -1
+		for i, op := range sp.Ops {
+			if op.Kind == "create" {
+				first = i
+				break
+			}
+		}
+		if first >= 0 {
+			n := 0
+			for i := first; i < len(sp.Ops) && n < 3; i++ {
+				op := &sp.Ops[i]
+				if op.Kind != "create" {
+					break
+				}
+				// make the following creations part of the group: same set, no loader fault, a From* entry
+				op.Set = sp.Ops[first].Set
+				op.Fault = false
+				if strings.HasPrefix(op.Via, "Render") {
+					op.Via = "FromFile"
+				}
+				op.Conc = 1
+				n++
+			}
+			if n < 2 {
+				for i := range sp.Ops {
+					sp.Ops[i].Conc = 0
+				}
+			}
+			for i := range sp.Ops {
+				if sp.Ops[i].Kind == "exec" {
+					sp.Ops[i].Set = sp.Ops[sp.Ops[i].ExecOf].Set // a template is executed in the set that created it
+				}
+			}
+		}
+	}
 	return sp
 }
 
@@ -662,8 +701,10 @@ func (s *c03Side) do(i int, op c03Op, withBans bool) (r *c03Res) {
 		out, err := tpl.Execute(c03Ctx(s.w, op.Dir))
 		r.Out, r.ExecErr = out, errStr(err)
 	case "create":
-		s.w.Plan = nil
-		s.w.active = map[int]int{}
+		if CurrentTask() == nil {
+			s.w.Plan = nil
+			s.w.active = map[int]int{}
+		}
 		if op.Fault {
 			s.w.Plan = []FaultSpec{{Site: KGet, Task: -1, Op: -1, Occ: 0, Fault: FGetEIO, Match: op.MainName, Disk: -1}}
 			s.w.pathCounts = map[string]int{}
@@ -787,11 +828,14 @@ func (c03Checker) Run(tp *Tapes, opt RunOpt) *Outcome {
 	}
 	// lazily reachable uses per created template (for later exec ops)
 	nontrivial := false
+	var concRes map[int]*c03Res
+	concTrace := uint64(0)
 	var trace []map[string]any
 	viol := func(class, key, detail string, exp, obs any) {
 		out.addViolation(class, key, detail, exp, map[string]any{"spec": sp, "trace": trace, "observed": obs})
 	}
 
+opsLoop:
 	for i, op := range sp.Ops {
 		m := models[op.Set]
 		out.Execs++
@@ -846,14 +890,65 @@ func (c03Checker) Run(tp *Tapes, opt RunOpt) *Outcome {
 				src = sp.Ops[op.ExecOf]
 				out.probe("exec_of_earlier")
 			}
-			before := 0
-			if src.Use != nil {
-				before = probeSnapshot(src.Use.Target)
+			if op.Conc > 0 && concRes == nil {
+				// run the whole group concurrently on the system side (seeded schedule)
+				var group []int
+				for j := i; j < len(sp.Ops) && sp.Ops[j].Conc == op.Conc; j++ {
+					group = append(group, j)
+				}
+				concRes = map[int]*c03Res{}
+				sched := NewSched(tp.Sched, sys.w)
+				sched.KeepLog = opt.KeepLog
+				if Instrumented {
+					// creations are short: pre-empt early and often
+					sched.YieldGap = []int{3, 8, 25, 80}[tp.Sched.Draw(4)]
+					sched.YieldBudget = 3 + tp.Sched.Draw(4)
+				}
+				sched.Strat = pickStrategy(tp.Sched)
+				sys.w.Sched = sched
+				bodies := make([]func(*TaskCtx), len(group))
+				locals := make([]any, len(group))
+				slots := make([]*c03Res, len(group))
+				for gi, j := range group {
+					gi, j := gi, j
+					bodies[gi] = func(tc *TaskCtx) {
+						sys.w.OpBegin(j)
+						slots[gi] = sys.do(j, sp.Ops[j], true)
+						sys.w.OpEnd(j)
+					}
+				}
+				sched.RunPhase(bodies, locals, 0)
+				sys.w.Sched = nil
+				out.Steps += sched.Steps
+				out.Log = append(out.Log, sched.Log...)
+				if sched.Deadlock {
+					viol("deadlock", "concurrent creation", "concurrent template creations on one set cannot make progress", nil, nil)
+					break opsLoop
+				}
+				if sched.Overrun {
+					out.HarnessErr = "step budget exceeded"
+					break opsLoop
+				}
+				for gi, j := range group {
+					concRes[j] = slots[gi]
+				}
+				out.probe("concurrent_first_creations")
+				th0 := newHasher()
+				th0.u64(uint64(sched.Trace))
+				concTrace = uint64(th0)
 			}
-			res := sys.do(i, op, true)
-			after := 0
-			if src.Use != nil {
-				after = probeSnapshot(src.Use.Target)
+			before, after := 0, 0
+			var res *c03Res
+			if pre, ok := concRes[i]; ok && pre != nil {
+				res = pre // (probe counters are not attributable inside a concurrent group)
+			} else {
+				if src.Use != nil {
+					before = probeSnapshot(src.Use.Target)
+				}
+				res = sys.do(i, op, true)
+				if src.Use != nil {
+					after = probeSnapshot(src.Use.Target)
+				}
 			}
 			tres := twin.do(i, op, false)
 			for k, v := range sys.w.Fired {
@@ -979,6 +1074,7 @@ func (c03Checker) Run(tp *Tapes, opt RunOpt) *Outcome {
 	out.Steps = out.Execs
 	th := newHasher()
 	th.u64(out.ProgHash)
+	th.u64(concTrace)
 	out.TraceHash = uint64(th)
 	out.NonTrivial = nontrivial
 	if opt.Sample {
